@@ -120,6 +120,17 @@ Proof.
   reflexivity.
 Qed.
 
+Theorem spec_verdict_p_set_semantics mr fc L T1 T2 :
+  (forall t, mem_str t T1 = mem_str t T2) -> spec_verdict_p matches mr fc L T1 = spec_verdict_p matches mr fc L T2.
+Proof.
+  intros H. unfold spec_verdict_p.
+  rewrite (tagged_active_ext T1 T2 _ H).
+  rewrite (existsb_ext (act matches T1) (act matches T2) (of_cat CImportant L) (fun f => act_ext T1 T2 f H)).
+  rewrite (existsb_ext (act matches T1) (act matches T2) (tagged_active T2 (of_cat CTagged L)) (fun f => act_ext T1 T2 f H)).
+  rewrite (existsb_ext (act matches T1) (act matches T2) (of_cat CException L) (fun f => act_ext T1 T2 f H)).
+  reflexivity.
+Qed.
+
 (* a tagged rule takes part iff its tag is enabled; an untagged one always *)
 Theorem tagged_rule_active_iff T f t : rtag f = Some t -> act matches T f = matches f && mem_str t T.
 Proof. intros H. unfold act, tag_ok. rewrite H. reflexivity. Qed.
@@ -143,6 +154,32 @@ Proof.
   apply spec_verdict_set_semantics. intros t.
   change (mem_str t (b_tags (run_ops h L ops))) with (tag_exists (run_ops h L ops) t).
   apply tag_exists_after_history.
+Qed.
+
+(* the same on the subset entry point (matched_rule / force_check_exceptions) *)
+Theorem verdict_after_history_p mr fc L ops :
+  id_inj L -> TG h matches pr L ->
+  blocker_check_p matches pr mr fc (run_ops h L ops) = spec_verdict_p matches mr fc L (set_ops ops).
+Proof.
+  intros Hi Ht.
+  assert (Hc : canonical L (run_ops h L ops)).
+  { unfold run_ops. apply run_from_canonical. apply canonical_new. }
+  rewrite Hc. rewrite (engine_eq_spec_p h matches pr pr_zero mr fc L _ Hi Ht).
+  apply spec_verdict_p_set_semantics. intros t.
+  change (mem_str t (b_tags (run_ops h L ops))) with (tag_exists (run_ops h L ops) t).
+  apply tag_exists_after_history.
+Qed.
+
+(* a tagged exception is consulted on the forced path exactly when its tag is enabled: with no
+   blocking rule at all, the exception bit of a forced query is "some active exception matches" *)
+Theorem forced_exception_reads_tags fc L T :
+  spec_verdict_p matches true fc L T
+  = let imp := existsb (act matches T) (of_cat CImportant L) in
+    let exc := existsb (act matches T) (of_cat CException L) in
+    {| v_matched := imp || negb exc; v_important := imp; v_exception := negb imp && exc; v_filter := imp |}.
+Proof.
+  unfold spec_verdict_p. cbn [negb andb orb].
+  destruct (existsb (act matches T) (of_cat CImportant L)), (existsb (act matches T) (of_cat CException L)); reflexivity.
 Qed.
 
 Theorem csp_hits_after_history L ops f :
